@@ -23,6 +23,7 @@ def plan(tier):
     p.rule_extra = 'Lock-related goals: a lock is taken, released by a later polka, renewed, and the locked block is proposed/prevoted.'
     p.live_runs = [(tm.Cfg('trace-n4', [1, 1, 1, 1], [2], max_round=6, max_height=4, nbyz=0, budget=0, own_first=False,
                            useful_only=False, properties=[]), 3, 2 if quick else 8)]
+    p.scenarios = ['lock_unlock', 'relock_and_pol_proposal', 'locked_without_proposal', 'stale_polka_must_not_unlock']
     return p
 
 
